@@ -423,7 +423,17 @@ def reader_rf_format(repo=None):
     fold = cfold.Folder(repo)
     fmts = []
     strf = []
-    for n in ast.walk(fn):
+    # the formats may sit in private module helpers the method calls (`_subdir_name(ts)`): those helpers are read as well
+    scope = [fn]
+    todo = [fn]
+    while todo:
+        f_ = todo.pop()
+        for c in ast.walk(f_):
+            if isinstance(c, ast.Call) and isinstance(c.func, ast.Name) and c.func.id.startswith("_") and c.func.id in m.functions \
+                    and m.functions[c.func.id] not in scope and len(scope) < 6:
+                scope.append(m.functions[c.func.id])
+                todo.append(m.functions[c.func.id])
+    for n in [x for f_ in scope for x in ast.walk(f_)]:
         if isinstance(n, ast.BinOp) and isinstance(n.op, ast.Mod):
             val = None
             if isinstance(n.left, ast.Constant) and isinstance(n.left.value, str):
@@ -694,13 +704,20 @@ def r8_paths_fit_their_buffers(repo=None):
     g = _cfg.build_c(fn)
     import re as _re
     checks = []
+    # the length may be held in a local first: `n = strlen(directory)`
+    len_pat = r"strlen\s*\(\s*directory\s*\)"
+    len_locals = {p_ for p_, nd_, rhs_, k_ in clib.stores(fn) if p_ and k_ == "=" and rhs_ is not None and "->" not in p_
+                  and _re.fullmatch(r"\(?\s*(?:\([a-z_ 0-9]+\)\s*)?" + len_pat + r"\s*\)?", rhs_.nsrc.strip())}
+    len_locals |= {d_.name for d_ in fn.find("VarDecl") if d_.children and _re.fullmatch(len_pat, d_.children[-1].strip(casts=True).nsrc.strip())}
+    for v_ in sorted(len_locals):
+        len_pat += r"|(?<![A-Za-z0-9_>.])" + _re.escape(v_) + r"(?![A-Za-z0-9_])"
     for n in g.nodes:
         if n.kind != "cond" or n.ast is None:
             continue
         e = n.ast.strip()
         if e.kind == "BinaryOperator" and e.opcode in ("<", ">", "<=", ">="):
             sides = [e.children[0].nsrc, e.children[1].nsrc]
-            if any(_re.search(r"strlen\s*\(\s*directory\s*\)", x) for x in sides) and any(
+            if any(_re.search(len_pat, x) for x in sides) and any(
                     ("BIG_HDF5_STR" in x or "sizeof" in x or (c_.intval() or 0) >= 256) and "strlen" not in x
                     for x, c_ in zip(sides, e.children)):
                 checks.append(n)
